@@ -928,20 +928,56 @@ class Body:
     # -- path obligations -----------------------------------------------------------------
     # -- limited path sensitivity: constants assigned to flag locals ------------------------
     def _flag_locals(self):
-        """Locals that are switched on directly and are somewhere assigned a constant
-        (`matches!`, `let ok = if .. {true} else {false}` lower to this shape)."""
+        """Flag keys (local, field) - field -1 for the local itself - that can be tracked as constants along a path:
+        locals that are switched on directly and are somewhere assigned a constant (`matches!`,
+        `let ok = if .. {true} else {false}` lower to this shape), and constant components of tuple aggregates that are
+        copied into such a local (`let (x, done) = match .. { A => (a, false), B => (b, true) }; if done {..}`)."""
         if "flags" not in self._reach_cache:
-            sw = set()
+            rel = set()
             for b in range(self.n):
                 t = self.term(b)
                 if t["k"] == "switch":
                     p = op_place(t["discr"])
                     if p is not None and not p[1]:
-                        sw.add(p[0])
-            fl = set()
-            for i, j, p, rv, _ in self.assigns():
-                if not p[1] and p[0] in sw and rv[0] == "use" and rv[1][0] == "k" and "v" in rv[1][1]:
-                    fl.add(p[0])
+                        rel.add((p[0], -1))
+            # backwards over plain copies: a switched local may be a copy of a named flag or of a tuple component
+            assigns = list(self.assigns())
+            changed = True
+            while changed:
+                changed = False
+                for i, j, p, rv, _ in assigns:
+                    if p[1] or (p[0], -1) not in rel or rv[0] != "use" or rv[1][0] not in ("c", "m"):
+                        continue
+                    src = rv[1][1]
+                    key = None
+                    if not src[1]:
+                        key = (src[0], -1)
+                    elif len(src[1]) == 1 and isinstance(src[1][0], list) and src[1][0][0] == "f":
+                        key = (src[0], src[1][0][1])
+                    if key is not None and key not in rel:
+                        rel.add(key)
+                        changed = True
+            const = set()
+            for i, j, p, rv, _ in assigns:
+                if not p[1] and rv[0] == "use" and rv[1][0] == "k" and "v" in rv[1][1]:
+                    const.add((p[0], -1))
+                if not p[1] and rv[0] == "agg" and rv[1].get("tuple"):
+                    for k, o in enumerate(rv[2]):
+                        if o[0] == "k" and "v" in o[1]:
+                            const.add((p[0], k))
+            # forward: keys that can actually carry a constant
+            fl = rel & const
+            changed = True
+            while changed:
+                changed = False
+                for i, j, p, rv, _ in assigns:
+                    if p[1] or (p[0], -1) not in rel or (p[0], -1) in fl or rv[0] != "use" or rv[1][0] not in ("c", "m"):
+                        continue
+                    src = rv[1][1]
+                    key = (src[0], -1) if not src[1] else ((src[0], src[1][0][1]) if len(src[1]) == 1 and isinstance(src[1][0], list) and src[1][0][0] == "f" else None)
+                    if key in fl:
+                        fl.add((p[0], -1))
+                        changed = True
             self._reach_cache["flags"] = fl
         return self._reach_cache["flags"]
 
@@ -951,16 +987,38 @@ class Body:
             return env
         d = dict(env)
         for s in self.stmts(b):
-            if s[0] == "A" and not s[1][1] and s[1][0] in fl:
-                rv = s[2]
+            if s[0] != "A" or s[1][1]:
+                continue
+            loc = s[1][0]
+            rv = s[2]
+            if rv[0] == "agg" and rv[1].get("tuple"):
+                for k, o in enumerate(rv[2]):
+                    if (loc, k) in fl:
+                        if o[0] == "k" and "v" in o[1]:
+                            v = o[1]["v"]
+                            d[(loc, k)] = int(v) if isinstance(v, str) else v
+                        else:
+                            d.pop((loc, k), None)
+                continue
+            if (loc, -1) in fl:
                 if rv[0] == "use" and rv[1][0] == "k" and "v" in rv[1][1]:
                     v = rv[1][1]["v"]
-                    d[s[1][0]] = int(v) if isinstance(v, str) else v
+                    d[(loc, -1)] = int(v) if isinstance(v, str) else v
+                elif rv[0] == "use" and rv[1][0] in ("c", "m") and len(rv[1][1][1]) == 1 and isinstance(rv[1][1][1][0], list) and rv[1][1][1][0][0] == "f" \
+                        and (rv[1][1][0], rv[1][1][1][0][1]) in d:
+                    d[(loc, -1)] = d[(rv[1][1][0], rv[1][1][1][0][1])]
+                elif rv[0] == "use" and rv[1][0] in ("c", "m") and not rv[1][1][1] and (rv[1][1][0], -1) in d:
+                    d[(loc, -1)] = d[(rv[1][1][0], -1)]
                 else:
-                    d.pop(s[1][0], None)
+                    d.pop((loc, -1), None)
+            else:
+                # any other whole assignment of a local invalidates what is known about its components
+                for k in [k for k in d if k[0] == loc and k[1] >= 0]:
+                    d.pop(k, None)
         t = self.term(b)
-        if t["k"] == "call" and not t["dest"][1] and t["dest"][0] in d:
-            d.pop(t["dest"][0], None)
+        if t["k"] == "call" and not t["dest"][1]:
+            for k in [k for k in d if k[0] == t["dest"][0]]:
+                d.pop(k, None)
         return tuple(sorted(d.items()))
 
     def _feasible_succ(self, b, env):
@@ -969,8 +1027,8 @@ class Body:
             p = op_place(t["discr"])
             if p is not None and not p[1]:
                 d = dict(env)
-                if p[0] in d:
-                    val = d[p[0]]
+                if (p[0], -1) in d:
+                    val = d[(p[0], -1)]
                     for v, tb in t["arms"]:
                         vv = int(v) if isinstance(v, str) else v
                         if vv == val:
